@@ -370,6 +370,38 @@ def check_interleaved_items(ld, kind, n, b, rngkind, seed, order, res, extra_pas
             return
 
 
+def check_inflight_prefetch(ld, kind, n, b, rngkind, seed, catch, res):
+    """Two iterations of ONE pool-prefetching dataset over a shuffle in flight
+    (the first started, the second run to its end, then the first finished):
+    each is a permutation."""
+    case = {'shuffle': kind, 'n': n, 'b': b, 'rng': rngkind, 'seed': seed,
+            'pool_prefetch_iterations_in_flight': 2, 'catch_filter_exception': catch}
+    res.case(('inflight', kind, n, b, rngkind, seed, catch), n >= 2)
+    try:
+        ds = shuffled(ld, kind, n, b, rngkind, seed).prefetch(
+            2, 3, 't', catch_filter_exception=catch)
+        it1 = iter(ds)
+        first = [next(it1)] if n else []
+        second = list(ds)
+        first += list(it1)
+        third = list(ds)
+    except BaseException as e:
+        res.violation('interleaved-raised', case, exc_sig(e),
+                      sig={'shuffle': kind, 'concurrent': True, 'prefetch': True})
+        return
+    for out in (first, second, third):
+        res.count('iterators_checked')
+        res.count('pool_prefetch_iterators_in_flight_checked')
+        if not is_perm(out, n):
+            # (the pool path iterates a frozen copy per iteration: this is not
+            # the mechanism of the known finding about the live reshuffle object)
+            res.violation('not-a-permutation', case,
+                          {'first_started': first, 'second_started': second, 'after': third},
+                          sig={'shuffle': kind + ' behind pool prefetch', 'concurrent': True,
+                               'prefetch': True})
+            return
+
+
 def check_compose(ld, how, kind, n, b, rngkind, seed, res):
     case = {'compose': how, 'shuffle': kind, 'n': n, 'b': b, 'rng': rngkind,
             'seed': seed}
@@ -493,6 +525,13 @@ def run_shard(spec, res):
         res.sample({'shuffle': kind, 'rng': spec['rng'], 'n': 3,
                     'interleaving': [0, 0, 1, 0, 1, 1, 0, 1],
                     'note': 'iterator index of each successive next() call'})
+        if kind == 'reshuffle':
+            for n in (0, 1, 2, 5, 9):
+                for s_ in range(3):
+                    for catch in (None, True, Exception):
+                        for kk in ('reshuffle', 'once'):
+                            check_inflight_prefetch(ld, kk, n, None, spec['rng'], base + s_,
+                                                    catch, res)
     elif spec['what'] == 'slow':
         # shuffled data behind a background hand-over, with a consumer that
         # stalls for more than a second (a training step): still a permutation
